@@ -60,9 +60,18 @@ class Exact:
         self.ok = True
 
     # ---- integer forms (vectors: 3-tuples already scaled) ------------------------------------
+    def _g6(self):
+        g = getattr(self, "_g6c", None)
+        if g is None:
+            G = self.Gs
+            g = (G[0][0], G[1][1], G[2][2], G[1][2], G[0][2], G[0][1]) if self.dim == 3 else (G[0][0], G[1][1], 0, 0, 0, G[0][1])
+            self._g6c = g
+        return g
+
     def bil(self, v, w):
-        d = self.dim
-        return sum(v[i] * self.Gs[i][j] * w[j] for i in range(d) for j in range(d))
+        g11, g22, g33, g23, g13, g12 = self._g6()
+        return (v[0] * (g11 * w[0] + g12 * w[1] + g13 * w[2]) + v[1] * (g12 * w[0] + g22 * w[1] + g23 * w[2])
+                + v[2] * (g13 * w[0] + g23 * w[1] + g33 * w[2]))
 
     def qf(self, v): return self.bil(v, v)
 
